@@ -419,9 +419,14 @@ def first_diff(a, b):
 
 # ------------------------------------------------------------------ generate
 
+MARATHON_RATE = {"C01": 1.0 / 15000, "C02": 1.0 / 40000}
+
+
 def generate(prop, rng, tier):
     if prop == "C03":
         return generate_c03(rng, tier)
+    if tier == "thorough" and rng.random() < MARATHON_RATE[prop]:
+        return generate_marathon(prop, rng)
     min_len = 1 if prop == "C01" else 2
     sig = gen_signal(rng, min_len=min_len)
     n_rep = rng.choice([1, 2, 2, 3, 3, 4])
@@ -462,6 +467,8 @@ def generate(prop, rng, tier):
 def execute(prop, trace):
     if prop == "C03":
         return execute_c03(trace)
+    if trace.get("marathon"):
+        return execute_marathon(prop, trace)
     out = _execute(prop, trace)
     if out.violations and trace.get("scribble"):
         # Buffer re-use (a streaming reader with one pre-allocated buffer overwrites it after
@@ -794,6 +801,168 @@ def check_c02_spec(out, sig, log, spec_dtype=None):
                 out.count("probe:tp_order_differs_from_fp")
 
 
+# ------------------------------------------------------------------ marathons (thorough tier only)
+#
+# Two histories that no short signal reaches: a detector that has been running for more than 2**31 samples
+# (C02: the reported indices are global sample numbers), and one call that has to digest more than 2**24
+# turning points (C01: one piece against chunks).  The acquisition is simulated: blocks are computed from
+# the sample number in closed form, nothing is stored; all of pyLife's code runs as it is.
+
+def generate_marathon(prop, rng):
+    if prop == "C02":
+        return {"world": NAME, "marathon": {"kind": "long", "det": rng.choice(["fp", "fp", "tp"]),
+                                            "log2_period": rng.choice([14, 15, 16]),
+                                            "block": rng.choice([1 << 22, 3 << 20, (1 << 22) + 1]),
+                                            "total": (1 << 31) + rng.randint(1 << 20, 1 << 24)}}
+    return {"world": NAME, "marathon": {"kind": "dense", "det": rng.choice(["tp", "fp"]),
+                                        "n_vib": (1 << 24) + (rng.randint(-3, 40) if rng.random() < 0.5 else 4 * rng.randint(0, 10)),
+                                        "lo": float(rng.randint(-2, 0)), "hi": float(rng.randint(1, 3)),
+                                        "event": _gen_event(rng),
+                                        "cut_fracs": sorted(rng.random() for _ in range(rng.randint(0, 2)))}}
+
+
+def _gen_event(rng):
+    if rng.random() < 0.4:
+        return [float(rng.randint(-9, 9)) + rng.choice([0.0, 0.5]) for _ in range(rng.randint(4, 9))]
+    # a big swing right after the vibration, smaller loops inside it, then a sample beyond the swing
+    ext = float(rng.randint(4, 8))
+    sgn = rng.choice([-1.0, 1.0])
+    ev = [sgn * ext, -sgn * ext]
+    ev += [float(rng.randint(-3, 3)) + rng.choice([0.0, 0.5]) for _ in range(rng.randint(1, 3))]
+    ev += [sgn * (ext + 1.0)]
+    ev += [float(rng.randint(-3, 3)) + rng.choice([0.0, 0.5]) for _ in range(rng.randint(0, 2))]
+    return ev
+
+
+def _arrays_of(d):
+    r = d.recorder
+    return {"from": np.asarray(r.values_from, dtype=np.float64), "to": np.asarray(r.values_to, dtype=np.float64),
+            "ifrom": np.asarray(r.index_from), "ito": np.asarray(r.index_to),
+            "res": np.asarray(d.residuals, dtype=np.float64), "ridx": np.asarray(d.residual_index)}
+
+
+def execute_marathon(prop, trace):
+    import hashlib
+    out = Outcome()
+    log = Log()
+    m = trace["marathon"]
+    det = m["det"]
+    try:
+        if m["kind"] == "long":
+            _marathon_long(out, log, m, det)
+        else:
+            _marathon_dense(out, log, m, det)
+    except RealCodeError as e:
+        out.violate("exception", "marathon/%s/%s" % (det, e.where), {"type": e.exc_type, "msg": e.msg})
+    out.digest = log.digest()
+    return out
+
+
+def _marathon_long(out, log, m, det):
+    """f(i) = |(i mod P) - P/2| + (i div 2**22): a triangular wave whose mean creeps upwards.  Its turning
+    points are known in closed form: maxima at multiples of P, minima half a period later."""
+    P = 1 << int(m["log2_period"])
+    H = P // 2
+    total, block = int(m["total"]), int(m["block"])
+
+    def f(i):
+        return np.abs((i & (P - 1)) - H) + (i >> 22)
+
+    d = _mk(det, "full")
+    a = 0
+    while a < total:
+        b = min(total, a + block)
+        i = np.arange(a, b, dtype=np.int64)
+        _feed(d, f(i).astype(np.float64))
+        out.steps += 1
+        a = b
+    out.count("probe:marathon_beyond_2e31_samples")
+    try:
+        o = _arrays_of(d)
+    except Exception as e:     # noqa
+        raise RealCodeError("observe", e)
+    # the definition, on the closed-form turning points
+    tp = [(0, float(f(np.int64(0))))]
+    k = H
+    while k < total - 1:
+        tp.append((k, float(f(np.int64(k)))))
+        k += H
+    tp.append((total - 1, float(f(np.int64(total - 1)))))
+    cyc, res = ref.four_point(tp)
+    want = [(a_, b_, ia, ib) for a_, b_, ia, ib in cyc]
+    got = list(zip(o["from"].tolist(), o["to"].tolist(), [int(x) for x in o["ifrom"]], [int(x) for x in o["ito"]]))
+    gres = list(zip([int(x) for x in o["ridx"]], o["res"].tolist()))
+    wres = [(int(i), v) for i, v in res]
+    log.add("long", det, len(got), gres)
+    # every reported index addresses a sample that holds the reported value
+    for name, idx, val in (("from", o["ifrom"], o["from"]), ("to", o["ito"], o["to"]), ("residual", o["ridx"], o["res"])):
+        idx64 = np.asarray(idx, dtype=np.uint64)
+        inside = idx64 < np.uint64(total)
+        ok = inside.copy()
+        ok[inside] = f(idx64[inside].astype(np.int64)).astype(np.float64) == np.asarray(val)[inside]
+        if not ok.all():
+            q = int(np.argmin(ok))
+            out.violate("I4-index-addresses-value", det + ":index:long-history",
+                        {"which": name, "entry": q, "index": int(idx64[q]), "value": float(np.asarray(val)[q]), "samples": total,
+                         "signal": "f(i) = |(i mod %d) - %d| + (i div 2**22)" % (P, H)})
+            return
+    bad = (got != want) if det == "fp" else (Counter(got) != Counter(want))
+    if bad or gres != wres:
+        k_ = next((q for q in range(min(len(got), len(want))) if got[q] != want[q]), min(len(got), len(want)))
+        out.violate("I3-specification", det + ":long-history",
+                    {"samples": total, "cycles_got": len(got), "cycles_want": len(want), "first_difference": k_,
+                     "got": got[k_] if k_ < len(got) else None, "want": want[k_] if k_ < len(want) else None,
+                     "got_residual": gres[:8], "want_residual": wres[:8]})
+        return
+    out.count("probe:cycles_checked", len(want))
+
+
+def _marathon_dense(out, log, m, det):
+    """A vibration lo, hi, lo, hi, ... of more than 2**24 samples (every sample a turning point) followed
+    by an event: one piece against chunks."""
+    n_vib = int(m["n_vib"])
+    vib = np.empty(n_vib, dtype=np.float64)
+    vib[0::2] = float(m["lo"])
+    vib[1::2] = float(m["hi"])
+    sig = np.concatenate((vib, np.array([float(x) for x in m["event"]], dtype=np.float64)))
+    del vib
+    n = len(sig)
+    cuts = sorted({min(n - 1, max(1, int(fr * n))) for fr in m.get("cut_fracs", [])} | {n_vib})
+    d1 = _mk(det, "full")
+    _feed(d1, sig)
+    try:
+        o1 = _arrays_of(d1)
+    except Exception as e:     # noqa
+        raise RealCodeError("observe", e)
+    del d1
+    d2 = _mk(det, "full")
+    bounds = [0] + cuts + [n]
+    for a, b in zip(bounds[:-1], bounds[1:]):
+        _feed(d2, sig[a:b])
+        out.steps += 1
+    try:
+        o2 = _arrays_of(d2)
+    except Exception as e:     # noqa
+        raise RealCodeError("observe", e)
+    out.count("probe:marathon_about_2e24_turns_in_one_call")
+    log.add("dense", det, len(o1["from"]), o1["res"].tolist(), o1["ridx"].tolist(), len(o2["from"]), o2["res"].tolist(), o2["ridx"].tolist())
+    for k in ("from", "to", "ifrom", "ito", "res", "ridx"):
+        x, y = o2[k], o1[k]
+        if len(x) != len(y) or not np.array_equal(x, y):
+            q = next((j for j in range(min(len(x), len(y))) if x[j] != y[j]), min(len(x), len(y)))
+            out.violate("I1-prefix-refinement", det + ":dense-call",
+                        {"field": k, "chunks": [b - a for a, b in zip(bounds[:-1], bounds[1:])], "first_difference": q,
+                         "chunked_len": len(x), "one_piece_len": len(y),
+                         "chunked": [float(v) for v in x[max(0, q - 2):q + 3]], "one_piece": [float(v) for v in y[max(0, q - 2):q + 3]],
+                         "signal": "%d samples alternating %g, %g, then %s" % (n_vib, m["lo"], m["hi"], m["event"])})
+            return
+    for name, idx, val in (("from", o1["ifrom"], o1["from"]), ("to", o1["ito"], o1["to"]), ("residual", o1["ridx"], o1["res"])):
+        idx = np.asarray(idx, dtype=np.int64)
+        if len(idx) and (idx.min() < 0 or idx.max() >= n or not np.array_equal(sig[idx], val)):
+            out.violate("I4-index-addresses-value", det + ":index:dense-call", {"which": name})
+            return
+
+
 # ------------------------------------------------------------------ C03
 
 def gen_dyadic_signal(rng, min_len=3, max_len=60):
@@ -1065,6 +1234,8 @@ def _adjust_cuts(cuts, pos, n_removed):
 
 
 def shrink(prop, trace):
+    if trace.get("marathon"):
+        return      # a marathon is its own minimal form: its few parameters are the whole trace
     import copy
     sig = trace["signal"]
     n = len(sig)
